@@ -7,8 +7,8 @@ import (
 	"strings"
 )
 
-func rk(s string) RawKey  { return RawKey{B: []byte(s)} }
-func rp(s string) RawKey  { return RawKey{B: []byte(s), Probe: true} }
+func rk(s string) RawKey   { return RawKey{B: []byte(s)} }
+func rp(s string) RawKey   { return RawKey{B: []byte(s), Probe: true} }
 func rkb(b ...byte) RawKey { return RawKey{B: b} }
 func rpb(b ...byte) RawKey { return RawKey{B: b, Probe: true} }
 
